@@ -43,10 +43,17 @@ structure Facts where
   shutdown : List ShutAct
 deriving DecidableEq, Repr
 
-/-- the tree as read in round 1 -/
-def Facts.current : Facts :=
+/-- the tree as first read in round 1 (before repairs B 52926d5 and C a6bcf98) -/
+def Facts.round1 : Facts :=
   { tickFlag := [.purge, .replay, .reset], tickElse := [.purge],
     queueFullSetsFlag := false, queueFullErrors := false, queueFullErrorsOnlyNoWal := false,
+    workerFailSetsFlag := true, syncFailSetsFlag := true,
+    shutdown := [.purgeAll, .bufClose, .walClose] }
+
+/-- the current tree: a queue-full drop raises the flag and, without a WAL, is reported to the client -/
+def Facts.current : Facts :=
+  { tickFlag := [.purge, .replay, .reset], tickElse := [.purge],
+    queueFullSetsFlag := true, queueFullErrors := true, queueFullErrorsOnlyNoWal := true,
     workerFailSetsFlag := true, syncFailSetsFlag := true,
     shutdown := [.purgeAll, .bufClose, .walClose] }
 
@@ -110,7 +117,8 @@ structure St where
   hold : Bool := false
   failAfter : Option Nat := none   -- none = storage ok; some k = k more file writes succeed, then all fail
   flag : Bool := false
-  lastFull : Bool := false         -- the last enqueue attempt hit the queue-full (or closing) arm
+  lastFull : Bool := false         -- the last write's enqueue attempt hit the queue-full arm
+  lastSkip : Bool := false         -- ... hit the closing short-circuit (flushSkipClosing: dropped, write returns nil)
   obs : List Nat := []             -- observation: hours of successful file writes since failAfter was set
   -- ghosts
   stored : List Row := []
@@ -165,7 +173,7 @@ def settle (c : Cfg) (s : St) : St :=
 
 /-- `tryEnqueueFlush` -/
 def enqueue (c : Cfg) (s : St) (t : Task) : St :=
-  if s.closing then { s with lastFull := true }
+  if s.closing then { s with lastSkip := true }
   else if s.queue.length < c.qCap then settle c { s with queue := s.queue ++ [t] }
   else if c.facts.queueFullSetsFlag then { s with flag := true, lastFull := true }
   else { s with lastFull := true }
@@ -328,7 +336,8 @@ def reportsFull (c : Cfg) : Bool :=
   c.facts.queueFullErrors && (!c.facts.queueFullErrorsOnlyNoWal || !c.walOn)
 
 def walStage (c : Cfg) (s : St) (key : Nat) (rows : List Row) : St :=
-  if c.walOn then walAppend c { s with lastFull := false } ⟨key, rows⟩ else { s with lastFull := false }
+  if c.walOn then walAppend c { s with lastFull := false, lastSkip := false } ⟨key, rows⟩
+  else { s with lastFull := false, lastSkip := false }
 
 def ackOf (c : Cfg) (s : St) : Bool := !(s.lastFull && reportsFull c)
 
